@@ -114,7 +114,7 @@ def clause_b(facts, rep, tier):
             n = 0
             try:
                 for s in range(0, limit):
-                    for inpage in ((True, False) if s < 32 else (False,)):
+                    for inpage in ((True, False) if s <= 64 else (False,)):      # which lengths take the in-page path is the code's choice
                         sk = Skeleton(facts, s, inpage)
                         r = sk.call(f, [Ptr('A', 0), Ptr('B', 0), s])
                         n += 1
